@@ -32,7 +32,23 @@ JudgeFiber(B) ==
                    <<"P:C11:operand-untouched", (~inpl => B.aafter = B.a) /\ B.bafter = B.b>>,
                    <<"P:C11:inplace-same-fiber", inpl => B.same = 1>> >>)
 
-Judge(B) == IF B.kind = "scalar" THEN JudgeScalar(B) ELSE JudgeFiber(B)
+\* two-level fibers: the same laws on the map view (points <<c1, c2>>): sum over the union of the points, product over their intersection
+RECURSIVE AbsT(_)
+AbsT(p) == IF p.k = "F" THEN Fib([k \in 1..Len(p.e) |-> <<p.e[k][1], AbsT(p.e[k][2])>>]) ELSE IF p.k = "L" THEN Leaf(p.v) ELSE [k |-> "X"]
+PVal(C, pt) == IF \E x \in C : x[1] = pt THEN (CHOOSE x \in C : x[1] = pt)[2] ELSE 0
+JudgeFiber2(B) ==
+  LET CA == Content(AbsT(B.a), 0)  CB == Content(AbsT(B.b), 0)
+      pts == {x[1] : x \in CA} \cup {x[1] : x \in CB}
+      exp == IF B.op \in {"add_ff", "iadd_ff"} THEN {y \in {<<p, PVal(CA, p) + PVal(CB, p)>> : p \in pts} : y[2] # 0}
+             ELSE {y \in {<<p, PVal(CA, p) * PVal(CB, p)>> : p \in pts} : y[2] # 0}
+      inpl == B.op \in {"iadd_ff", "imul_ff"}
+      name == CASE B.op = "add_ff" -> "P:C11:fiber-add" [] B.op = "mul_ff" -> "P:C11:fiber-mul" [] OTHER -> "P:C11:inplace-agrees"
+  IN IF B.exc # "ok" THEN <<"P:C11:fiber-no-exception">>
+     ELSE Fails(<< <<name, NoForeign(B.res) /\ Content(AbsT(B.res), 0) = exp>>,
+                   <<"P:C11:operand-untouched", (~inpl => B.aafter = B.a) /\ B.bafter = B.b>>,
+                   <<"P:C11:inplace-same-fiber", inpl => B.same = 1>> >>)
+
+Judge(B) == IF B.kind = "scalar" THEN JudgeScalar(B) ELSE IF B.kind = "fiber2" THEN JudgeFiber2(B) ELSE JudgeFiber(B)
 Init == i \in 1..Len(Log) /\ done = FALSE
 Next == ~done /\ done' = TRUE /\ UNCHANGED i
         /\ LET f == Judge(Log[i]) IN PrintT(ToJson([tid |-> Log[i].tid, fails |-> [k \in 1..Len(f) |-> <<1, f[k]>>], n |-> 1]))
